@@ -119,12 +119,12 @@ PBatch(cf, ps, ms, parts) ==
 -----------------------------------------------------------------------------
 (* ---------------- consumer mock ----------------
    One topic, partitions 0 and 1 may be registered, partition 2 never is.
-   pc = [reg, eoff (expected offset, AnyOff = any), consumed, yields (messages yielded so far),
-         mq (pending messages: Seq([mid, off])), eq (pending error ids), dm, de (drain expectations),
+   pc = [reg, eoff (expected offset, AnyOff = any), consumed, yields / nerr (messages / errors
+         yielded so far), mq (pending messages: Seq([mid, off])), eq (pending error ids), dm, de (drain expectations),
          closed (channels closed)]                                                       *)
 AnyOff == -1000
 CParts == {0, 1}
-PC0 == [reg |-> FALSE, eoff |-> 0, consumed |-> FALSE, yields |-> 0, mq |-> <<>>, eq |-> <<>>,
+PC0 == [reg |-> FALSE, eoff |-> 0, consumed |-> FALSE, yields |-> 0, nerr |-> 0, mq |-> <<>>, eq |-> <<>>,
         dm |-> FALSE, de |-> FALSE, closed |-> FALSE]
 CInit == [p \in CParts |-> PC0]
 
@@ -138,7 +138,9 @@ CYieldMsg(cs, p, mid) ==
   LET off == cs[p].yields + 1 IN
   [CRes([cs EXCEPT ![p].yields = off, ![p].mq = Append(@, [mid |-> mid, off |-> off])], "ok", <<>>)
      EXCEPT !.val = <<mid, off, p>>]
-CYieldErr(cs, p, eid) == CRes([cs EXCEPT ![p].eq = Append(@, eid)], "ok", <<>>)
+CYieldErr(cs, p, eid) == CRes([cs EXCEPT ![p].eq = Append(@, eid), ![p].nerr = @ + 1], "ok", <<>>)
+\* ids the harness gives to the k-th message / error yielded on partition p
+MidOf(p, k) == 10 * p + k
 CDrain(cs, p, which) ==
   CRes(IF which = "m" THEN [cs EXCEPT ![p].dm = TRUE] ELSE [cs EXCEPT ![p].de = TRUE], "ok", <<>>)
 
